@@ -510,7 +510,21 @@ def c11(ctx):
     for _ in range(5000 if quick else 200000):
         texts.append("".join(rng.choice(TOK_SYMS + ["12.5", "abc", "sgnx", "xsgn", "0", "9", "A", "Z", "é", "\r", "sGn", "G", "abs", "Abs"])
                              for _ in range(rng.randint(5, 14))))
+    # every character (not only the alphabet above) in contexts where the neighbouring token could
+    # swallow it: after a supported blank, after a digit, after a letter, before a blank, alone.
+    # Unicode has many characters that Python's str methods treat like blanks / digits / letters
+    # (NBSP, form feed, U+2000.., fullwidth and Arabic-Indic digits, ...): each is unsupported.
+    cps = list(range(0, 0x3100 if quick else 0x10000))
+    cps += [0x3000, 0xFEFF, 0xFF10, 0xFF21, 0xFF41, 0x1D7CE, 0x1F600, 0x10FFFF, 0xE0020]
+    cps = [c for c in dict.fromkeys(cps) if not (0xD800 <= c <= 0xDFFF)]
+    ctxs = ["{}", "4x + {}2", " {}", "\t{}x", "2{}3", "x{} "] + ([] if quick else ["{} ", "  {}  ", "sgn{}(x)", "({})", "\n{}\n"])
+    n_before = len(texts)
+    for cp in cps:
+        ch = chr(cp)
+        for c_ in ctxs:
+            texts.append(c_.format(ch))
     texts = list(dict.fromkeys(texts))
+    ctx.notes["characters_in_context"] = {"code_points": len(cps), "contexts": len(ctxs), "texts": len(texts) - n_before}
     items = [(t, p) for t in texts for p in (False, True)]
     res = pr.run_tok(items)
     drv = core.Driver()
@@ -676,6 +690,45 @@ def histories(ctx, lengths, texts, nrandom, rng):
     return hs
 
 
+FAIL_IN_GROUP = ["(4 +", "(3 + 4 5)", "()", "sgn(2x", "((x", "(1 + (2 * ", "sgn((", "(x))", "2 * (", "(((((x", "-(", "(x + (y"]
+VALID_GROUPS = ["(x + 1) * 2", "sgn(2)", "((x))", "2(x + y)", "(a + b)(c + d)", "-(x^2)", "sgn((x))", "x"]
+
+
+def soak_histories(rng, n, with_tokenize=True):
+    """long lives of ONE parser: hundreds of failing parses (most of them failing inside an open
+    group or function call, where a parser might be tempted to keep book of nesting), cache
+    clearing, tokenize calls, and valid inputs with groups asked again and again in between"""
+    hs = []
+    for i in range(n):
+        h = []
+        length = rng.choice([120, 200, 320])
+        style = i % 4
+        for j in range(length):
+            r = rng.random()
+            if style == 0:
+                f = FAIL_IN_GROUP[0] if r < 0.9 else rng.choice(FAIL_IN_GROUP)
+            elif style == 1:
+                f = "(((((x" if r < 0.8 else rng.choice(FAIL_IN_GROUP)
+            else:
+                f = rng.choice(FAIL_IN_GROUP)
+            h.append(("p", f))
+            if rng.random() < 0.08:
+                h.append(("p", rng.choice(VALID_GROUPS)))
+            if with_tokenize and rng.random() < 0.04:
+                h.append(("t", rng.choice(VALID_GROUPS + FAIL_IN_GROUP)))
+            if rng.random() < 0.03:
+                h.append(("c",))
+        if style == 3:
+            h.insert(rng.randrange(len(h)), ("p", "(" * 150 + "x"))
+        for v in VALID_GROUPS:
+            h.append(("p", v))
+        h.append(("c",))
+        for v in VALID_GROUPS:
+            h.append(("p", v))
+        hs.append(h)
+    return hs
+
+
 def check_histories(ctx, hs):
     drv = core.Driver()
     ans = drv.ask([hist_wire(h) for h in hs])
@@ -723,6 +776,9 @@ def c12(ctx):
                 for k2 in "pt":
                     hs.append([(k1, a), (k2, b)])
                     hs.append([(k1, a), (k2, b), (k1, a)])
+    soak = soak_histories(rng, 8 if quick else 120)
+    ctx.notes["soak_histories"] = {"histories": len(soak), "operations": sum(len(h) for h in soak)}
+    hs += soak
     bad, diffs, hits = check_histories(ctx, hs)
     ctx.coverage["evaluations"] += len(hs)
     ctx.coverage["distinct_nontrivial"] += hits
@@ -734,7 +790,7 @@ def c12(ctx):
 
 def deep_inputs():
     out = []
-    for n in (10, 50, 100):
+    for n in (10, 50, 64, 65, 66, 100, 101, 128, 150):
         out.append(("nest%d" % n, "(" * n + "x" + ")" * n))
         out.append(("negnest%d" % n, "-(" * n + "x" + ")" * n))
         out.append(("fn%d" % n, "sgn(" * n + "x" + ")" * n))
@@ -772,14 +828,27 @@ def c10(ctx):
             audit.append({"text": t, "problems": probs})
     hs = histories(ctx, [2], ["2x+1", "2+", "(", "1.2.3", "#", ")", "x^"], 1500 if quick else 20000, rng)
     hs = [h for h in hs if all(op[0] in "pc" for op in h)]
+    soak = soak_histories(rng, 8 if quick else 120, with_tokenize=False)
+    ctx.notes["soak_histories"] = {"histories": len(soak), "operations": sum(len(h) for h in soak)}
+    hs += soak
     bad, hdiffs, hits = check_histories(ctx, hs)
     ctx.coverage["evaluations"] += len(hs)
     # deep inputs
     deep_bad = []
+    drv_deep = core.Driver()
+    nest_probes = [(n_, t_) for n_, t_ in deep_inputs() if n_.startswith(("nest", "negnest", "fn"))]
+    nest_model = dict(zip([n_ for n_, _ in nest_probes],
+                          drv_deep.ask([f"parse {pr.text_wire(t_)}" for _, t_ in nest_probes])))
     for name, text in deep_inputs():
         r = pr.impl_parse(text)
         if r[0] == "internal" or (r[0] == "perr" and str(r[1]).startswith("internal")):
             deep_bad.append({"probe": name, "length": len(text), "impl": r})
+        elif name in nest_model:
+            # bounded nesting (<= 150 levels): the outcome is the model's (a tree)
+            m = pr.model_parse_answer(nest_model[name])
+            if not pr.same_parse(r, m):
+                deep_bad.append({"probe": name, "length": len(text), "impl": str(r)[:200], "model": str(m)[:200],
+                                 "problem": "valid nested input not parsed to the grammar's tree"})
     ctx.notes["deep_probes"] = len(deep_inputs())
     # known finding: RecursionError on long flat products (parse_mult recurses for '*')
     known = [f for f in ctx.open_findings() if f.get("id") == "C10-flat-product-recursion"]
